@@ -463,6 +463,9 @@ func (f *Frame) applyContract(x ssa.Value, fc *FuncContract, fn *ssa.Function, k
 	}
 	mentionsFresh := false
 	for _, en := range fc.Ensures {
+		if e.topFC != nil && e.topFC.hides(key, en.Label) {
+			continue
+		}
 		if exprCalls(en.E, "fresh") {
 			if skipFresh {
 				continue
@@ -851,4 +854,19 @@ func (e *Enc) globalNamed(pkgPath string, x *Expr) *ssa.Global {
 		}
 	}
 	return nil
+}
+
+// hides: does this contract ask not to assume the callee's postcondition with that label?
+func (fc *FuncContract) hides(calleeKey, label string) bool {
+	for name, labels := range fc.Hide {
+		if !strings.HasSuffix(calleeKey, name) {
+			continue
+		}
+		for _, l := range labels {
+			if l == "*" || l == label {
+				return true
+			}
+		}
+	}
+	return false
 }
